@@ -1,4 +1,6 @@
 import HavocVerif.Lemmas.CanIRead
+import HavocVerif.Lemmas.Parser
+import HavocVerif.Spec.C03
 namespace Havoc
 open Parser
 
@@ -104,5 +106,60 @@ theorem holdsFields_encode (fs : List Field) (rest : Bytes) (h : ∀ f ∈ fs, f
     | pointer v => exact ⟨be64 v, _, rfl, rfl, ih hfs⟩
     | bool b => exact ⟨be32 (if b then 1 else 0), _, rfl, rfl, ih hfs⟩
     | bytes d => exact ⟨d, _, hf, by simp [Field.encode], ih hfs⟩
+
+
+open SpecC03 in
+section
+private theorem fixedB (k : Nat) (buf : Bytes) (P : Bytes → Prop) :
+    (k ≤ buf.length ∧ P (buf.drop k)) ↔ ∃ w rest, w.length = k ∧ buf = w ++ rest ∧ P rest := by
+  constructor
+  · rintro ⟨h, hp⟩
+    exact ⟨buf.take k, buf.drop k, by simp [List.length_take]; omega, by simp, hp⟩
+  · rintro ⟨w, rest, hw, rfl, hp⟩
+    refine ⟨by simp; omega, ?_⟩
+    have : (w ++ rest).drop k = rest := by rw [← hw]; simp
+    rw [this]; exact hp
+
+theorem holdsFieldsB_iff (ts : List ReadType) (buf : Bytes) :
+    holdsFieldsB ts buf = true ↔ holdsFields ts buf := by
+  induction ts generalizing buf with
+  | nil => simp [holdsFieldsB, holdsFields]
+  | cons t ts ih =>
+    cases t
+    case int32 => simp only [holdsFieldsB, holdsFields, Bool.and_eq_true, decide_eq_true_eq, ih]; exact fixedB 4 buf _
+    case bool => simp only [holdsFieldsB, holdsFields, Bool.and_eq_true, decide_eq_true_eq, ih]; exact fixedB 4 buf _
+    case int64 => simp only [holdsFieldsB, holdsFields, Bool.and_eq_true, decide_eq_true_eq, ih]; exact fixedB 8 buf _
+    case pointer => simp only [holdsFieldsB, holdsFields, Bool.and_eq_true, decide_eq_true_eq, ih]; exact fixedB 8 buf _
+    case bytes =>
+      simp only [holdsFieldsB, holdsFields, Bool.and_eq_true, decide_eq_true_eq, ih]
+      constructor
+      · rintro ⟨⟨h4, hn⟩, hp⟩
+        have ht : (buf.take 4).length = 4 := by simp [List.length_take]; omega
+        refine ⟨(buf.drop 4).take (beNat (buf.take 4)), buf.drop (4 + beNat (buf.take 4)), ?_, ?_, hp⟩
+        · have := beNat_lt_4 _ ht
+          simp [List.length_take]; omega
+        · have hl : ((buf.drop 4).take (beNat (buf.take 4))).length = beNat (buf.take 4) := by
+            simp [List.length_take]; omega
+          rw [hl, be32_beNat _ ht]
+          have : buf.drop (4 + beNat (buf.take 4)) = (buf.drop 4).drop (beNat (buf.take 4)) := by
+            rw [List.drop_drop]
+          rw [this, List.append_assoc, List.take_append_drop, List.take_append_drop]
+      · rintro ⟨d, rest, hd, rfl, hp⟩
+        have t4 : (be32 d.length ++ d ++ rest).take 4 = be32 d.length := by
+          rw [List.append_assoc]; exact take4_be32_append _ _
+        rw [t4, beNat_be32 _ hd]
+        refine ⟨⟨by simp, by simp⟩, ?_⟩
+        have : (be32 d.length ++ d ++ rest).drop (4 + d.length) = rest := by
+          have hl : (be32 d.length ++ d).length = 4 + d.length := by simp
+          rw [← hl, List.drop_left]
+        rw [this]; exact hp
+
+/-- the pre-flight check of the model agrees with the executable spec -/
+theorem canIRead_eq_holdsFieldsB (ts : List ReadType) (buf : Bytes) :
+    canIRead ⟨buf, true⟩ ts = holdsFieldsB ts buf := by
+  have h1 := canIRead_iff ts buf
+  have h2 := holdsFieldsB_iff ts buf
+  cases hc : canIRead ⟨buf, true⟩ ts <;> cases hb : holdsFieldsB ts buf <;> simp_all
+end
 
 end Havoc
